@@ -255,6 +255,41 @@ pub enum Ent {
     /// (prefix byte, narrowest width) is not their raw form — recorded finding KF-ADDSTRUCT-INT
     IntM(u64, u64),
     IntH(u64, u64),
+    /// a downstream `aml_as_bytes!` type (see `macro_types`) of the given raw bytes, through MADT / HEST
+    MacroM(Vec<u8>),
+    MacroH(Vec<u8>),
+}
+
+/// downstream types made with the crate's exported `aml_as_bytes!` macro, one per size 1..=16
+/// (the macro is public API: its expansion must serialise any `IntoBytes` type as its raw bytes)
+pub mod macro_types {
+    use acpi_tables::{Aml, AmlSink};
+    use zerocopy::IntoBytes;
+    macro_rules! mtype {
+        ($name:ident, $n:expr) => {
+            #[repr(C, packed)]
+            #[derive(Clone, Copy, Debug, zerocopy::IntoBytes, zerocopy::Immutable)]
+            pub struct $name(pub [u8; $n]);
+            acpi_tables::aml_as_bytes!($name);
+        };
+    }
+    mtype!(M1, 1); mtype!(M2, 2); mtype!(M3, 3); mtype!(M4, 4); mtype!(M5, 5); mtype!(M6, 6); mtype!(M7, 7); mtype!(M8, 8);
+    mtype!(M9, 9); mtype!(M10, 10); mtype!(M11, 11); mtype!(M12, 12); mtype!(M13, 13); mtype!(M14, 14); mtype!(M15, 15); mtype!(M16, 16);
+    /// run `$f!(value)` on the macro type of the slice's length
+    #[macro_export]
+    macro_rules! with_mtype {
+        ($b:expr, $f:ident) => {{
+            use $crate::s_tables::macro_types::*;
+            let b: &[u8] = $b;
+            fn a<const N: usize>(b: &[u8]) -> [u8; N] { let mut x = [0u8; N]; x.copy_from_slice(b); x }
+            match b.len() {
+                1 => $f!(M1(a(b))), 2 => $f!(M2(a(b))), 3 => $f!(M3(a(b))), 4 => $f!(M4(a(b))), 5 => $f!(M5(a(b))), 6 => $f!(M6(a(b))),
+                7 => $f!(M7(a(b))), 8 => $f!(M8(a(b))), 9 => $f!(M9(a(b))), 10 => $f!(M10(a(b))), 11 => $f!(M11(a(b))), 12 => $f!(M12(a(b))),
+                13 => $f!(M13(a(b))), 14 => $f!(M14(a(b))), 15 => $f!(M15(a(b))), 16 => $f!(M16(a(b))),
+                _ => panic!("macro type size"),
+            }
+        }};
+    }
 }
 
 /// a user-written table entry: `#[repr(C, packed)]`, `IntoBytes`, and a hand-written `Aml` impl that
@@ -676,6 +711,8 @@ pub fn build(op: &Op, hs: &mut Handles) -> Ent {
             30 => Ent::QosCtrl(Default::default()),
             40 => Ent::MadtGas(gas_of(&op.n[1..6])),
             41 => Ent::MadtUser(UserEntry { ty: n(1) as u8, len: 12, flags: (n(2) as u16).to_le_bytes(), addr: n(3).to_le_bytes() }),
+            45 => Ent::MacroM(blob(0).to_vec()),
+            46 => Ent::MacroH(blob(0).to_vec()),
             43 => Ent::IntM(n(1), n(2)),
             44 => Ent::IntH(n(1), n(2)),
             42 => Ent::HestUser(UserEntry { ty: n(1) as u8, len: 12, flags: (n(2) as u16).to_le_bytes(), addr: n(3).to_le_bytes() }),
@@ -718,6 +755,7 @@ impl Ent {
             Ent::QosCtrl(x) => ser(x),
             Ent::Gas(x) => ser(x), Ent::MadtGas(x) => ser(x), Ent::MadtUser(x) => ser(x), Ent::HestUser(x) => ser(x),
             Ent::IntM(w, v) | Ent::IntH(w, v) => match w { 8 => ser(&(*v as u8)), 16 => ser(&(*v as u16)), 32 => ser(&(*v as u32)), _ => ser(v) },
+            Ent::MacroM(b) | Ent::MacroH(b) => { macro_rules! f { ($v:expr) => { ser(&$v) } } crate::with_mtype!(b, f) }
         }
     }
     /// raw in-memory form (`as_bytes`) for the `IntoBytes` structures (C14)
@@ -733,6 +771,7 @@ impl Ent {
             Ent::Gas(x) => x.as_bytes().to_vec(), Ent::MadtGas(x) => x.as_bytes().to_vec(),
             Ent::MadtUser(x) => x.as_bytes().to_vec(), Ent::HestUser(x) => x.as_bytes().to_vec(),
             Ent::IntM(w, v) | Ent::IntH(w, v) => match w { 8 => (*v as u8).as_bytes().to_vec(), 16 => (*v as u16).as_bytes().to_vec(), 32 => (*v as u32).as_bytes().to_vec(), _ => v.as_bytes().to_vec() },
+            Ent::MacroM(b) | Ent::MacroH(b) => { macro_rules! f { ($v:expr) => { $v.as_bytes().to_vec() } } crate::with_mtype!(b, f) }
             _ => return None,
         })
     }
@@ -756,6 +795,7 @@ impl Ent {
             Ent::Notif(x) => f(x), Ent::Ges(x) => f(x), Ent::Ged(x) => f(x),
             Ent::QosCtrl(x) => f(x), Ent::Gas(x) => f(x), Ent::MadtGas(x) => f(x), Ent::MadtUser(x) => f(x), Ent::HestUser(x) => f(x),
             Ent::IntM(w, v) | Ent::IntH(w, v) => match w { 8 => f(&(*v as u8)), 16 => f(&(*v as u16)), 32 => f(&(*v as u32)), _ => f(v) },
+            Ent::MacroM(b) | Ent::MacroH(b) => { macro_rules! g { ($v:expr) => { f(&$v) } } crate::with_mtype!(b, g) }
             Ent::Ecam(..) | Ent::XsdtEntry(..) => return None,
         })
     }
@@ -859,6 +899,8 @@ impl Tab {
             (Tab::Madt(t), Ent::MadtUser(x)) => { t.add_structure(x); None }
             (Tab::Hest(t), Ent::HestUser(x)) => { t.add_structure(x); None }
             (Tab::Madt(t), Ent::IntM(w, v)) => { match w { 8 => t.add_structure(v as u8), 16 => t.add_structure(v as u16), 32 => t.add_structure(v as u32), _ => t.add_structure(v) }; None }
+            (Tab::Madt(t), Ent::MacroM(b)) => { macro_rules! f { ($v:expr) => { t.add_structure($v) } } crate::with_mtype!(&b, f); None }
+            (Tab::Hest(t), Ent::MacroH(b)) => { macro_rules! f { ($v:expr) => { t.add_structure($v) } } crate::with_mtype!(&b, f); None }
             (Tab::Hest(t), Ent::IntH(w, v)) => { match w { 8 => t.add_structure(v as u8), 16 => t.add_structure(v as u16), 32 => t.add_structure(v as u32), _ => t.add_structure(v) }; None }
             _ => panic!("entry kind does not belong to this table"),
         }
